@@ -2736,3 +2736,36 @@ pub mod markfx {
         fn mark(&mut self, i: usize) { self.entries[i].link = L::DEL; }
     }
 }
+
+// ---------------------------------------------------------------- R-SIBLING.keylimit
+pub mod keylimfx {
+    pub mod bad {
+        pub fn insert(store: &mut Vec<u8>, key: &[u8]) -> bool {
+            if key.len() > 255 { return false; }
+            store.push(key.len() as u8); store.extend_from_slice(key); true
+        }
+        pub fn contains(store: &[u8], key: &[u8]) -> bool {
+            if key.len() > 254 { return false; }
+            store.windows(key.len().max(1)).any(|w| w == key)
+        }
+        pub fn position(store: &[u8], key: &[u8]) -> Option<usize> {
+            if key.len() > 255 { return None; }
+            store.windows(key.len().max(1)).position(|w| w == key)
+        }
+    }
+    pub mod ok {
+        pub fn insert(store: &mut Vec<u8>, key: &[u8]) -> bool {
+            if key.len() > 255 { return false; }
+            store.push(key.len() as u8); store.extend_from_slice(key); true
+        }
+        pub fn contains(store: &[u8], key: &[u8]) -> bool {
+            if key.len() >= 256 { return false; }
+            store.windows(key.len().max(1)).any(|w| w == key)
+        }
+        pub fn position(store: &[u8], key: &[u8]) -> Option<usize> {
+            let n = key.len();
+            if 255 < n { return None; }
+            store.windows(n.max(1)).position(|w| w == key)
+        }
+    }
+}
